@@ -619,6 +619,8 @@ def progset_ops(R, case, P, pset, instr, rng):
             if op == "copy":
                 ps = ps.copy("copied")
             elif op == "add_program":
+                if not ords:
+                    continue  # (a model without compartments: a new program would have nothing to target)
                 nm = "newprog%d" % (len(ps.programs) + len(applied))
                 while nm in ps.programs:
                     nm += "x"
